@@ -25,7 +25,8 @@ pub struct Case20 {
     pub append_via: u8,
     pub pre: Vec<Kind>,
     pub post: Vec<Kind>,
-    /// 0 none, 1 non-UTF-8 document, 2 unparsable document, 3 missing path, 4 shell cannot be started
+    /// 0 none, 1 non-UTF-8 document, 2 unparsable document, 3 missing path, 4 shell cannot be started,
+    /// 5 non-UTF-8 document found by scanning a directory, 6 unparsable document found that way
     pub fault: u8,
     /// also render with the pretty renderer and check the summary line
     pub pretty: bool,
@@ -49,7 +50,7 @@ fn case_strategy() -> BoxedStrategy<Case20> {
         0u8..3,
         vec(kind_strategy(false), 1..3),
         vec(kind_strategy(false), 1..3),
-        prop_oneof![8 => Just(0u8), 1 => 1u8..5],
+        prop_oneof![8 => Just(0u8), 1 => 1u8..7],
         proptest::bool::weighted(0.3),
         proptest::bool::weighted(0.35),
     )
@@ -331,6 +332,19 @@ fn check_case(c: &Case20) -> V {
             paths.push(p.to_string_lossy().to_string());
         }
         3 => paths.push(root.join("does-not-exist.md").to_string_lossy().to_string()),
+        5 | 6 => {
+            // in a sub-directory of a directory that is given as a path
+            let sub = suite.join("sub");
+            std::fs::create_dir_all(&sub).ok();
+            if c.fault == 5 {
+                std::fs::write(sub.join("zz-not-utf8.md"), b"# bad\n\n```scrut\n$ echo \xff\xfe\n```\n").ok();
+            } else {
+                std::fs::write(sub.join("zz-unparsable.md"), "# bad\n\n```scrut\nexpectation without command\n```\n").ok();
+            }
+            if !dir_added {
+                paths.push(suite.to_string_lossy().to_string());
+            }
+        }
         4 => {
             extra_args.push("--shell".into());
             extra_args.push("/nonexistent/shell".into());
